@@ -755,6 +755,17 @@ func (vc *VC) evalSelector(x *ast.SelectorExpr, st *State) Val {
 	case types.MethodVal:
 		recv := vc.eval(x.X, st)
 		fn := sel.Obj().(*types.Func)
+		// follow the embedded-field path to the actual receiver
+		if idx := sel.Index(); len(idx) > 1 {
+			for _, i := range idx[:len(idx)-1] {
+				if kindOf(recv.T) == KPtr {
+					recv = vc.loadElem(st, elemTypeOf(recv.T), recv.C[0], recv.C[1])
+				}
+				stt := recv.T.Underlying().(*types.Struct)
+				lo, hi, ft, _ := fieldRange(recv.T, stt.Field(i).Name())
+				recv = Val{T: ft, C: recv.C[lo:hi]}
+			}
+		}
 		args := append([]*Term{}, recv.C...)
 		return mkVal(vc.typeOf(x), App("bound:"+funcFullName(fn), SInt, args...))
 	}
@@ -1060,6 +1071,11 @@ func (vc *VC) convertTo(v Val, t types.Type, st *State, n ast.Node) Val {
 		k := vc.fresh("k", SInt)
 		vc.assume(Forall([]*Term{k}, Implies(And(Le(Zero, k), Lt(k, v.Len())),
 			Eq(Select(Select(sm, id), k), Select(Select(h, v.Arr()), Add(v.Off(), k))))))
+		if o, ok := vc.origins[v.C[0].id]; ok && v.C[1] == Zero {
+			vc.origins[id.id] = o
+		} else {
+			vc.origins[id.id] = originRec{row: Select(h, v.Arr()), off: v.Off(), len: v.Len()}
+		}
 		return mkVal(t, id, Zero, v.Len())
 	case to == KSlice && from == KString:
 		// []byte(s): fresh array
@@ -1073,6 +1089,11 @@ func (vc *VC) convertTo(v Val, t types.Type, st *State, n ast.Node) Val {
 		vc.assume(Forall([]*Term{k}, Implies(And(Le(Zero, k), Lt(k, v.C[2])),
 			Eq(Select(a, k), Select(Select(vc.strMem(), v.C[0]), Add(v.C[1], k))))))
 		st.heaps[name] = Store(h, id, a)
+		if o, ok := vc.origins[v.C[0].id]; ok && v.C[1] == Zero {
+			vc.origins[id.id] = o
+		} else {
+			vc.origins[id.id] = originRec{row: Select(vc.strMem(), v.C[0]), off: v.C[1], len: v.C[2]}
+		}
 		return mkVal(t, id, Zero, v.C[2], v.C[2])
 	case to == KString && from == KInt:
 		vc.abstraction("string(rune)")
@@ -1112,7 +1133,7 @@ func (vc *VC) toIface(v Val, t types.Type, st *State) Val {
 	case KPtr:
 		ival = App("box_ptr", SInt, v.C[0], v.C[1])
 		// nil pointer in interface is non-nil interface: dyn != 0 regardless
-	case KInt:
+	case KInt, KFunc, KMap, KChan:
 		ival = v.C[0]
 	default:
 		args := v.C
